@@ -49,6 +49,11 @@ def main(chk):
                               m["shape"], m["p"], m["text"]), m)
     else:
         rd, table, tc = rt, table_i, tc_i
+    if chk.violations:
+        # the cold executions already violate the property: the verdict is decided, the (long) graph replay adds nothing to it
+        return chk.finish(dict(states=rt.distinct, transitions=rt.generated, traces_validated_against_impl=0, evaluations=tc_i.n,
+                               shape_cases_executed_cold=tc_i.n, samples=[v[1] for v in chk.violations[:3]],
+                               graph_phase="skipped: the shape table already shows violations"), assumptions=[])
     # 3. invocation sequences over a shared cache
     depth = 5 if chk.quick else 6
     groups = [[name(c) for c in g] for g in (["lscalar", "llist", "lcol", "ltab"], ["lmulti", "lwhere", "lcrit", "lscalar"])]
